@@ -13,7 +13,8 @@ RULE = ("Cases = (transform pair, parameters, t, method, optional degree, workin
         "exp(-a sqrt p)/p -> erfc(a/(2 sqrt t)), log(p)/p -> -euler-log t. Parameters are dyadic rationals; t = k/64 or "
         "k/100 in [0.01, 10] (or 1 exactly); precision given in bits (50..170, i.e. dps 15..50, deliberately not always a "
         "dps_to_prec value) ; methods talbot, stehfest, dehoog; degree absent or an integer (talbot 16.., stehfest 18.., "
-        "dehoog 10..). Domain restrictions taken from the docstrings: Stehfest only gets non-oscillatory pairs; for "
+        "dehoog 10..); the method is named by string (any case), by the shortcut functions invlaptalbot/..., by the "
+        "class object, or left to the default (dehoog). Domain restrictions taken from the docstrings: Stehfest only gets non-oscillatory pairs; for "
         "oscillatory pairs the number of radians w*t is at most dps_eff/2 (moderate imaginary parts: the Talbot "
         "parabola and the de Hoog Fourier nodes scale with degree/t, and the default degree is proportional to dps). "
         "dps_eff = dps, or min(dps, degree/c) when a degree is given, c = degree/dps ratio of the documented default "
@@ -104,6 +105,8 @@ def gen_case(d, shard, tier):
          "t_as_int": bool(t[1] == 1 and d.bool()), "nt": nontrivial,
          "raise_at": d.int(0, 40) if d.int(0, 5) == 0 else None,
          "j0_form": d.int(0, 1),
+         # how the method is named: string, string in another case, shortcut function, class object, default (dehoog)
+         "call": d.weighted([(5, "str"), (1, "case"), (2, "shortcut"), (2, "class"), (1, "default")]),
          "cls": "%s:%s%s%s" % (method, fam, ":degree" if degree is not None else "", ":tmax" if tmax else "")}
     return c
 
@@ -199,14 +202,27 @@ def check_case(c):
         tref = mpref.mp.make_mpf(t._mpf_)                  # the reference sees exactly the t that is passed
         targ = int(tn) if c["t_as_int"] else t
         kw = {"method": method}
+        call = c.get("call", "str")
+        func = mp.invertlaplace
+        if call == "case":
+            kw["method"] = {"talbot": "Talbot", "stehfest": "STEHFEST", "dehoog": "deHoog"}[method]
+        elif call == "shortcut":
+            func = {"talbot": mp.invlaptalbot, "stehfest": mp.invlapstehfest, "dehoog": mp.invlapdehoog}[method]
+            del kw["method"]
+        elif call == "class":
+            from mpmath.calculus import inverselaplace as _il
+            kw["method"] = {"talbot": _il.FixedTalbot, "stehfest": _il.Stehfest, "dehoog": _il.deHoog}[method]
+        elif call == "default" and method == "dehoog":
+            del kw["method"]
         if c["degree"] is not None:
             kw["degree"] = c["degree"]
         if c["tmax"]:
             kw["tmax"] = mp.mpf(c["tmax"][0]) / c["tmax"][1]
         F, val, nat = _build(mp, mpref, c, tref)
         dps_eff = dps if c["degree"] is None else min(dps, c["degree"] / RATIO[method])
-        what = "invertlaplace(%s %r, t=%s/%s, %s) at prec %d (dps %d)" % (
-            c["fam"], c["par"], tn, td, ", ".join("%s=%s" % (k, v) for k, v in sorted(kw.items())), prec, dps)
+        what = "%s(%s %r, t=%s/%s, %s) at prec %d (dps %d)" % (
+            "invertlaplace" if call != "shortcut" else "invlap" + method, c["fam"], c["par"], tn, td,
+            ", ".join("%s=%s" % (k, getattr(v, "__name__", v)) for k, v in sorted(kw.items())), prec, dps)
 
         # --- a call whose function raises must not leak the raised working precision
         if c["raise_at"] is not None:
@@ -218,7 +234,7 @@ def check_case(c):
                     raise _Boom()
                 return F(p)
             try:
-                mp.invertlaplace(Fbad, targ, **kw)
+                func(Fbad, targ, **kw)
             except _Boom:
                 pass
             if mp.prec != prec or mp.dps != dps:
@@ -226,7 +242,7 @@ def check_case(c):
                         "mp.dps = %d (before: %d, %d)" % (what, c["raise_at"], mp.prec, mp.dps, prec, dps))
                 mp.prec = prec
 
-        got = mp.invertlaplace(F, targ, **kw)
+        got = func(F, targ, **kw)
         if mp.prec != prec or mp.dps != dps:
             res.bad("prec-leak:%s" % method, "%s: afterwards mp.prec = %d, mp.dps = %d (before: %d, %d)" % (
                 what, mp.prec, mp.dps, prec, dps))
